@@ -521,3 +521,36 @@ fn bounded_add_or_replace() {
     // everything the new key invalidates is gone, everything else stays, plus the new entry
     assert!(b.len() == survivors + 1);
 }
+
+/// choose_active_members: every pick is an active record accepted by the picker, distinct positions, at most `wanted`; N <= 3
+#[kani::proof]
+#[kani::unwind(6)]
+fn bounded_choose_active_members() {
+    let ms = any_members();
+    let wanted = (kani::any::<u8>() % 3) as usize;
+    let excl = any_kid();
+    let mut out: alloc::vec::Vec<Member<KId>> = alloc::vec::Vec::new();
+    ms.choose_active_members(wanted, &mut out, AnyRng, |id| *id != excl);
+    assert!(out.len() <= wanted);
+    let mut eligible = 0usize;
+    let mut i = 0;
+    while i < ms.inner.len() {
+        if ms.inner[i].is_active() && *ms.inner[i].id() != excl {
+            eligible += 1;
+        }
+        i += 1;
+    }
+    assert!(out.len() == if eligible < wanted { eligible } else { wanted });
+    let mut j = 0;
+    while j < out.len() {
+        assert!(out[j].is_active());
+        assert!(*out[j].id() != excl);
+        assert!(ms.inner.iter().any(|m| *m == out[j]));
+        let mut k = 0;
+        while k < j {
+            assert!(out[k].id().addr() != out[j].id().addr());
+            k += 1;
+        }
+        j += 1;
+    }
+}
